@@ -74,6 +74,9 @@ fn gen_len(rng: &mut Rng) -> usize {
 }
 
 fn gen_bools(rng: &mut Rng, n: usize) -> Vec<bool> {
+    if rng.chance(1, 5) {
+        return crate::gen::gen_word_pattern_bits(rng, n);
+    }
     let density = *rng.pick(&[0u64, 1, 8, 32, 56, 63, 64]);
     (0..n).map(|_| rng.below(64) < density).collect()
 }
@@ -361,7 +364,7 @@ fn h_opt_bool(x: &Option<bool>) -> u64 {
 fn h_opt_u64(x: &Option<u64>) -> u64 {
     match x {
         None => 0x4e,
-        Some(v) => v.wrapping_mul(3) + 1,
+        Some(v) => v.wrapping_mul(3).wrapping_add(1),
     }
 }
 fn h_vec_usize(x: &Vec<usize>) -> u64 {
